@@ -216,3 +216,14 @@ var (
 )
 
 func bs(s string) []byte { return []byte(s) }
+
+// longKey returns a key of n bytes that starts with prefix and continues with a
+// non-periodic byte pattern (a shifted or repeated read of it is a different key).
+func longKey(prefix string, n int) []byte {
+	k := make([]byte, n)
+	copy(k, prefix)
+	for i := len(prefix); i < n; i++ {
+		k[i] = byte('a' + (i*7+i/13+i*i/31)%26)
+	}
+	return k
+}
